@@ -145,6 +145,15 @@ pub fn run(cx: &mut Ctx) {
                         // signature errors) located at an inner expression, often spanning lines
                         let (q, _) = crate::mutate_ast::mutate(&p.prog, &mut rng);
                         one_text(cx, &render(&q, &style).text, i);
+                        if i % 100 == 1 {
+                            // the same mutant on ONE very long line: columns beyond 65535
+                            let plain = render_plain(&q).replace('\n', " ");
+                            if let Some(k) = plain.find('{') {
+                                let long = format!("{}{}{}", &plain[..=k], " ".repeat(66_000 + rng.below(3_000)), &plain[k + 1..]);
+                                one_text(cx, &long, i);
+                                cx.report.count("texts_with_a_line_beyond_65535_columns", 1);
+                            }
+                        }
                     }
                     p.text().to_string()
                 }
